@@ -179,3 +179,106 @@ Theorem cq_tensor_net_types : forall (SR : StarRing) (f g : cqmap SR),
   /\ cq_cod (cq_tensor_net f g) = cq_cod (cq_tensor f g).
 Proof. exact CQTensorNet.cq_tensor_net_types. Qed.
 Print Assumptions cq_tensor_net_types.
+
+(* ------------------------------------------------------------------ CQ/CQMore.v *)
+Require DV.CQ.CQMore.
+Import DV.CQ.CQMore.
+
+(* the NON-DESTRUCTIVE measurement Measure(n, destructive=False [, override_bits])
+   : qubit^n [@ bit^n] -> qubit^n @ bit^n (qubits kept, bits produced) is trace preserving,
+   also in the composite form of the discard law  f >> discard = discard *)
+Theorem measure_nondestructive_preserves_trace : forall (SR : StarRing) (n : nat) (o : bool),
+  let f := cq_box (MMeasure n false o : mbox SR) in
+  tp f /\
+  forall i, length i = uw (cq_dom f) ->
+    mmul (uw (cq_cod f)) (cq_mat f) (cq_mat (cq_discard (cq_cod f))) i []
+    = cq_mat (cq_discard (cq_dom f)) i [].
+Proof. exact measure_nondestructive_tp. Qed.
+Print Assumptions measure_nondestructive_preserves_trace.
+
+(* TRACE PRESERVATION for the semantic closure of the class: every well-typed circuit all
+   of whose boxes satisfy the discard law -- whatever they are; this contains the class
+   tp_box of `trace_preserving` (tp_circuit_sem_of_class), in particular every variant of
+   Measure -- evaluates, with the image types, to a trace-preserving CQMap *)
+Theorem trace_preserving_sem : forall (SR : StarRing) (c : mcircuit SR),
+  wf_mcircuit c = true -> tp_circuit_sem c ->
+  exists f, cq_eval c = Ok f /\ cq_dom f = F_ob (m_dom c) /\ cq_cod f = F_ob (cod_or_nil c) /\ tp f.
+Proof. exact CQMore.trace_preserving_sem. Qed.
+Print Assumptions trace_preserving_sem.
+
+Theorem tp_class_is_semantic : forall (SR : StarRing) (c : mcircuit SR),
+  tp_circuit c -> tp_circuit_sem c.
+Proof. exact tp_circuit_sem_of_class. Qed.
+Print Assumptions tp_class_is_semantic.
+
+(* hence for EVERY well-typed circuit of such boxes (any domain, any codomain, bits and
+   qubits): what get_counts() / measure(mixed=True) read -- the evaluation of
+   init_and_discard() -- exists and sums to 1 *)
+Theorem get_counts_sums_to_one : forall (SR : StarRing) (c : mcircuit SR),
+  wf_mcircuit c = true -> tp_circuit_sem c ->
+  exists f, cq_eval (init_and_discard c) = Ok f
+            /\ bsum (nb (cod_or_nil c)) (fun o => cq_mat f [] o) = r1.
+Proof. exact CQMore.get_counts_sums_to_one. Qed.
+Print Assumptions get_counts_sums_to_one.
+
+(* the remaining Encode variants and MixedState are NOT trace preserving unless 1 = 0 in
+   the ring (they are adjoints of channels: a post-selection, unnormalised states) ... *)
+Theorem encode_variants_not_trace_preserving : forall SR : StarRing,
+  (tp (cq_box (MEncode 1 false false : mbox SR)) -> (r1 : SR) = r0)
+  /\ (tp (cq_box (MEncode 1 true true : mbox SR)) -> (r1 : SR) = r0)
+  /\ (tp (cq_box (MMixedState [WQ] : mbox SR)) -> (r1 : SR) = r0).
+Proof.
+  intro SR. split; [exact (encode_nonconstructive_not_tp SR)|].
+  split; [exact (encode_reset_not_tp SR) | exact (mixedstate_not_tp SR)].
+Qed.
+Print Assumptions encode_variants_not_trace_preserving.
+
+(* ... and over the executable ring they are not *)
+Theorem encode_variants_not_trace_preserving_cyc32 :
+  ~ tp (cq_box (MEncode 1 false false : mbox Cyc32.Cyc32))
+  /\ ~ tp (cq_box (MEncode 1 true true : mbox Cyc32.Cyc32))
+  /\ ~ tp (cq_box (MMixedState [WQ] : mbox Cyc32.Cyc32)).
+Proof. exact encode_variants_not_tp_cyc32. Qed.
+Print Assumptions encode_variants_not_trace_preserving_cyc32.
+
+(* WELL-TYPEDNESS is preserved by Circuit.dagger() (from the codomain to the domain) ... *)
+Theorem mdagger_well_typed : forall (SR : StarRing) (c : mcircuit SR), wf_mcircuit c = true ->
+  wf_mcircuit (mdagger c) = true
+  /\ m_dom (mdagger c) = cod_or_nil c /\ cod_or_nil (mdagger c) = m_dom c.
+Proof. exact mdagger_wf. Qed.
+Print Assumptions mdagger_well_typed.
+
+(* ... and by Circuit.init_and_discard(): empty domain, the bits of the codomain *)
+Theorem init_and_discard_well_typed : forall (SR : StarRing) (c : mcircuit SR), wf_mcircuit c = true ->
+  wf_mcircuit (init_and_discard c) = true
+  /\ m_dom (init_and_discard c) = []
+  /\ cod_or_nil (init_and_discard c) = filter is_b (cod_or_nil c).
+Proof. exact init_and_discard_wf. Qed.
+Print Assumptions init_and_discard_well_typed.
+
+(* Circuit.measure() of a well-typed PURE circuit c (non-mixed path: Ket(0..0) >> c, then
+   |amplitude|^2 per Bra): the Born probabilities of C11's pure evaluation,
+   amp c o = eval c (0..0) o, over all bitstrings o in row-major order *)
+Theorem measure_pure_is_born : forall (SR : StarRing) (c : circuit SR), wf_circuit c = true ->
+  measure (embed c) false
+  = Ok (map (fun o => rmul (amp c o) (rconj (amp c o))) (all_bits (cod_or0 c))).
+Proof. exact CQMore.measure_pure_is_born. Qed.
+Print Assumptions measure_pure_is_born.
+
+(* Circuit.measure(mixed) of  c >> Measure(n)  (mixed path: init_and_discard puts one Ket(0)
+   per input qubit in front, cqmap.Functor evaluates, .real is taken): the same numbers *)
+Theorem measure_mixed_is_born : forall (SR : StarRing) (c : circuit SR) (mixed : bool),
+  wf_circuit c = true ->
+  mthen (embed c) (MC (qubits_ty (cod_or0 c)) [meas_layer (cod_or0 c)]) = Ok (then_measure c)
+  /\ measure (then_measure c) mixed
+     = Ok (map (fun o => rmul (rconj (amp c o)) (amp c o)) (all_bits (cod_or0 c))).
+Proof.
+  intros SR c mixed H. split; [exact (mthen_measure SR c H) | exact (CQMore.measure_mixed_is_born SR c mixed H)].
+Qed.
+Print Assumptions measure_mixed_is_born.
+
+(* MEASURE = EVAL at circuit level: the two paths agree *)
+Theorem measure_eq_eval : forall (SR : StarRing) (c : circuit SR) (mixed : bool),
+  wf_circuit c = true -> measure (then_measure c) mixed = measure (embed c) false.
+Proof. exact CQMore.measure_eq_eval. Qed.
+Print Assumptions measure_eq_eval.
